@@ -110,7 +110,7 @@ def gen_case(rng, nops):
         alive = [h for h in w.hosts if not w.crashed[h]]
         if not alive:
             break
-        if r < 0.22:
+        if r < 0.18:
             d = rng.randrange(nds)
             hs = holders(d)
             x = rng.random()
@@ -132,12 +132,12 @@ def gen_case(rng, nops):
                 emit({"op": "tick", "h": src, "inputs": _mk_inputs(rng, w, src, [c], 2), "sched": _sched(rng)})
             else:
                 undelivered.append(c)
-        elif r < 0.28:
+        elif r < 0.22:
             if not undelivered:
                 continue
             c = undelivered.pop(rng.randrange(len(undelivered)))
             emit({"op": "tick", "h": c["source"], "inputs": _mk_inputs(rng, w, c["source"], [c], 2), "sched": _sched(rng)})
-        elif r < 0.38:
+        elif r < 0.30:
             d = rng.randrange(nds)
             hs = holders(d)
             x = rng.random()
@@ -150,16 +150,16 @@ def gen_case(rng, nops):
             if any(c["source"] == h and c["ds"] == d for c in undelivered) and rng.random() < 0.9:
                 continue
             emit({"op": "tick", "h": h, "inputs": _mk_inputs(rng, w, h, [{"k": "purge", "ds": d}], 2), "sched": _sched(rng)})
-        elif r < 0.62:
+        elif r < 0.58:
             cands = [h for h in alive if _frames_to(w, h)]
             if not cands:
                 continue
             h = rng.choice(cands)
             emit({"op": "tick", "h": h, "inputs": _mk_inputs(rng, w, h, [], 3) or _mk_inputs(rng, w, h, [], 3), "sched": _sched(rng)})
-        elif r < 0.70:
+        elif r < 0.64:
             if w.net:
                 emit({"op": "drop", "i": rng.randrange(len(w.net))})
-        elif r < 0.76:
+        elif r < 0.70:
             pos = [i for i, f in enumerate(w.net) if f[0] == "ctrl"]
             if pos:
                 emit({"op": "ctrl", "i": rng.choice(pos), "dup": rng.random() < 0.25})
@@ -167,7 +167,7 @@ def gen_case(rng, nops):
             hs = [h for h in alive if w.pools[h].jobs]
             if hs:
                 emit({"op": "job", "h": rng.choice(hs), "c": rng.randint(0, 3)})
-        elif r < 0.95:
+        elif r < 0.96:
             emit({"op": "adv", "d": rng.choice([300, 1000, 2500, 3999, 4000, 4001, 5000, 9000])})
         else:
             emit({"op": "tick", "h": rng.choice(alive), "inputs": [], "sched": _sched(rng)})
@@ -442,20 +442,38 @@ def _stats(ctx, case, ops, w):
     return kinds
 
 
+def _compare(ctx, runs):
+    mouts = model_outs([(c, o) for c, o, _ in runs])
+    for (case, ops, outs), mo in zip(runs, mouts):
+        ctx.traces += 1
+        if len(mo) != len(outs):
+            ctx.disagree("data-server-op:driver-output", {"n": case["n"], "stores": case["stores"], "ops": ops}, len(mo), len(outs))
+            continue
+        for i, (a, b) in enumerate(zip(outs, mo)):
+            if a != b:
+                where = first_diff(a, b)
+                key = where.split(".")[-1]
+                pick = (lambda x: x.get(key)) if "." not in where else (lambda x: x["hosts"][int(where[4]) - 1].get(key))
+                ctx.disagree("data-server-op:" + where, {"n": case["n"], "stores": case["stores"], "ops": ops[:i + 1]},
+                             pick(b), pick(a))
+                break
+
+
 def correspond(ctx):
     from ekw.core import CORPUS_DIR
-    n = ctx.budget(160, 4000)
-    maxops = ctx.budget(40, 120)
+    n = ctx.budget(240, 2500)
+    maxops = ctx.budget(60, 120)
     cases = []
     for f in sorted(glob.glob(str(CORPUS_DIR / "C07_*.json"))):
         try:
             cases.append(json.load(open(f))["case"])
         except Exception:
             pass
-    for _ in range(n):
-        cases.append(gen_case(ctx.rng, ctx.rng.randint(8, maxops)))
+    ncorpus = len(cases)
     runs = []
-    for case in cases:
+    reported = set()
+    for k in range(ncorpus + n):
+        case = cases[k] if k < ncorpus else gen_case(ctx.rng, ctx.rng.randint(8, maxops))
         try:
             ops, outs, w = run_case(case)
             w.drained = True
@@ -472,22 +490,20 @@ def correspond(ctx):
             if kind in seen:
                 continue
             seen.add(kind)
+            if kind in reported:      # shrink each kind of failure once per run
+                ctx.violation({"kind": kind}, case, what)
+                continue
+            reported.add(kind)
             small = shrink(case, kind)
             _, _, w2 = run_case(small)
             f2 = [f for f in oracle(small, w2) if f[0] == kind]
             ctx.violation({"kind": kind}, small, f2[0][1] if f2 else what)
         runs.append((case, ops, outs))
-    mouts = model_outs([(c, o) for c, o, _ in runs])
-    for (case, ops, outs), mo in zip(runs, mouts):
-        ctx.traces += 1
-        for i, (a, b) in enumerate(zip(outs, mo)):
-            if a != b:
-                where = first_diff(a, b)
-                key = where.split(".")[-1]
-                pick = (lambda x: x.get(key)) if "." not in where else (lambda x: x["hosts"][int(where[4]) - 1].get(key))
-                ctx.disagree("data-server-op:" + where, {"n": case["n"], "stores": case["stores"], "ops": ops[:i + 1]},
-                             pick(b), pick(a))
-                break
+        if len(runs) >= 250:
+            _compare(ctx, runs)
+            runs = []
+    if runs:
+        _compare(ctx, runs)
 
 
 def replay(payload):
